@@ -217,6 +217,13 @@ def shapes(tier):
     add(ml, ["ml"], (("loop", "outer", (("loop", "inner", (("match", L("a")), ("call", "ml", ("outer",)), ("optional", (("match", L("y")), ("break", "inner"))))), ("hook", "g"))), ("hook", "h")))
     mc = {"mc": ((), (("optional", (("match", L("x")), ("break", "outer"))),))}
     add(mc, ["mc"], (("loop", "outer", (("match", L("a")), ("call", "mc", ()))), ("hook", "h"), ("match", L("z"))))
+    # 5b. a labelled loop inside the macro body, left by `break <label>`; expanded more than once (each expansion owns its loop)
+    mlab = {"mlab": ((("match", "m"),), (("loop", "lp", (("match", MP("m")), ("optional", (("match", L(",,")), ("break", "lp"))))), ("hook", "h"))),
+            "mlab2": ((("match", "m"),), (("loop", "lo", (("loop", "li", (("match", MP("m")), ("optional", (("match", L(",,")), ("break", "li"))), ("optional", (("match", L(";;")), ("break", "lo"))))), ("hook", "g"))), ("hook", "h")))}
+    for nm in ("mlab", "mlab2"):
+        add(mlab, [nm], (("call", nm, (L("ab"),)), ("match", L("!")), ("call", nm, (L("cd"),)), ("match", L("?"))))
+        add(mlab, [nm], (("call", nm, (L("ab"),)), ("call", nm, (("re", q("c", "+")),)), ("call", nm, (L("ef"),)), ("match", L("?"))))
+        add(mlab, [nm], (("loop", "lp", (("call", nm, (L("ab"),)), ("optional", (("match", L("xx")), ("break", "lp"))), ("call", nm, (L("cd"),)))), ("match", L("?"))))
     # 6. codes
     mf = {"mf": ((("finishcode", "c"),), (("match", L("a")), ("finish", "c")))}
     for a in ("F", "G"):
